@@ -29,6 +29,7 @@ type ParityAsym struct {
 type parityUnit struct {
 	norm, src string
 	pos       token.Pos
+	named     bool // the unit defines a local that is used once; the consumer's unit contains it
 }
 
 func hasFuncLit(n ast.Node) bool {
@@ -57,6 +58,37 @@ func fileBytes(name string) []byte {
 // name matches re blanked, (2) the word blanked inside string literals, (3)
 // local variables replaced by "_" (so that renaming a local is not a change).
 func normUnit(f *Func, n ast.Node, re *regexp.Regexp) (string, bool) {
+	return normUnitDepth(f, n, re, 0)
+}
+
+// singleDefOf returns the defining expression of local variable use id when the
+// variable has exactly one definition and this one use in f, nil otherwise.
+func singleDefOf(f *Func, id *ast.Ident) ast.Expr {
+	info := f.Pkg.TypesInfo
+	v, ok := info.Uses[id].(*types.Var)
+	if !ok || v.IsField() || v.Parent() == nil || v.Parent() == v.Pkg().Scope() {
+		return nil
+	}
+	var probe ast.Expr = id
+	def := ResolveLocalOnce(info, f.Decl.Body, probe)
+	if def == probe {
+		return nil
+	}
+	// used once: the local only names an intermediate value
+	uses := 0
+	ast.Inspect(f.Decl.Body, func(n ast.Node) bool {
+		if u, ok := n.(*ast.Ident); ok && info.Uses[u] == types.Object(v) {
+			uses++
+		}
+		return true
+	})
+	if uses != 1 {
+		return nil
+	}
+	return def
+}
+
+func normUnitDepth(f *Func, n ast.Node, re *regexp.Regexp, depth int) (string, bool) {
 	fset := f.Pkg.Fset
 	file := fset.File(n.Pos())
 	src := fileBytes(file.Name())
@@ -104,6 +136,16 @@ func normUnit(f *Func, n ast.Node, re *regexp.Regexp) (string, bool) {
 				o = info.Defs[x]
 			}
 			if v, ok := o.(*types.Var); ok && !v.IsField() && v.Parent() != nil && v.Parent() != v.Pkg().Scope() {
+				// a local that merely names a value computed from a field of the pair reads as that value
+				if depth < 2 && info.Uses[x] != nil {
+					if def := singleDefOf(f, x); def != nil && !hasFuncLit(def) {
+						if s, ok := normUnitDepth(f, def, re, depth+1); ok {
+							hit = true
+							rs = append(rs, repl{file.Offset(x.Pos()), file.Offset(x.End()), s})
+							return true
+						}
+					}
+				}
 				rs = append(rs, repl{file.Offset(x.Pos()), file.Offset(x.End()), "_"})
 			}
 			if _, ok := o.(*types.Func); ok && re.MatchString(x.Name) {
@@ -203,8 +245,101 @@ func parityUnits(f *Func, re, both *regexp.Regexp) []parityUnit {
 			return
 		}
 		if norm, ok := normUnit(f, n, both); ok {
-			out = append(out, parityUnit{norm, Src(f.Pkg.Fset, n), n.Pos()})
+			out = append(out, parityUnit{norm: norm, src: Src(f.Pkg.Fset, n), pos: n.Pos()})
 		}
+	}
+	climb := func(start ast.Node, calls int) (ast.Node, bool, int) {
+		cur := start
+		widened := false
+	climb:
+		for {
+			p := parent[cur]
+			switch px := p.(type) {
+			case *ast.SelectorExpr:
+				if px.X == cur {
+					cur = p
+					continue
+				}
+			case *ast.StarExpr, *ast.ParenExpr:
+				if !widened {
+					cur = p
+					continue
+				}
+			case *ast.TypeAssertExpr:
+				if px.X == cur {
+					cur = p
+					continue
+				}
+			case *ast.IndexExpr:
+				if px.X == cur {
+					cur = p
+					widened = true
+					continue
+				}
+			case *ast.CallExpr:
+				if calls < 2 {
+					calls++
+					cur = p
+					widened = true
+					continue
+				}
+			case *ast.UnaryExpr:
+				if px.Op == token.NOT {
+					cur = p
+					widened = true
+					continue
+				}
+			case *ast.BinaryExpr:
+				other := px.X
+				if other == cur {
+					other = px.Y
+				}
+				if tv, ok := info.Types[other]; ok && (tv.Value != nil || tv.IsNil()) {
+					cur = p
+					widened = true
+				}
+			case *ast.AssignStmt:
+				for _, l := range px.Lhs {
+					if l == cur {
+						cur = p
+						widened = true
+					}
+				}
+			}
+			break climb
+		}
+		return cur, widened, calls
+	}
+	// namedUses: when cur is the whole right-hand side that defines a local with a single definition, the
+	// uses of that local
+	namedUses := func(cur ast.Node) []ast.Node {
+		as, ok := parent[cur].(*ast.AssignStmt)
+		if !ok || len(as.Lhs) != len(as.Rhs) {
+			return nil
+		}
+		for i, r := range as.Rhs {
+			if r != cur {
+				continue
+			}
+			id, ok := as.Lhs[i].(*ast.Ident)
+			if !ok {
+				return nil
+			}
+			o := ObjOf(info, id)
+			var uses []ast.Node
+			ast.Inspect(f.Decl.Body, func(n ast.Node) bool {
+				if u, ok := n.(*ast.Ident); ok && info.Uses[u] == o && o != nil {
+					if singleDefOf(f, u) == nil {
+						uses = nil
+						return false
+					}
+					uses = append(uses, u)
+				}
+				return true
+			})
+			return uses
+		}
+		return nil
 	}
 	ast.Inspect(f.Decl.Body, func(n ast.Node) bool {
 		switch x := n.(type) {
@@ -230,68 +365,21 @@ func parityUnits(f *Func, re, both *regexp.Regexp) []parityUnit {
 			if sel := info.Selections[x]; sel == nil || !hasSiblingField(sel.Recv(), v, both) {
 				return true // the struct has no counterpart field
 			}
-			var cur ast.Node = x
-			widened := false
-			calls := 0
-		climb:
-			for {
-				p := parent[cur]
-				switch px := p.(type) {
-				case *ast.SelectorExpr:
-					if px.X == cur {
-						cur = p
-						continue
-					}
-				case *ast.StarExpr, *ast.ParenExpr:
-					if !widened {
-						cur = p
-						continue
-					}
-				case *ast.TypeAssertExpr:
-					if px.X == cur {
-						cur = p
-						continue
-					}
-				case *ast.IndexExpr:
-					if px.X == cur {
-						cur = p
-						widened = true
-						continue
-					}
-				case *ast.CallExpr:
-					if calls < 2 {
-						calls++
-						cur = p
-						widened = true
-						continue
-					}
-				case *ast.UnaryExpr:
-					if px.Op == token.NOT {
-						cur = p
-						widened = true
-						continue
-					}
-				case *ast.BinaryExpr:
-					other := px.X
-					if other == cur {
-						other = px.Y
-					}
-					if tv, ok := info.Types[other]; ok && (tv.Value != nil || tv.IsNil()) {
-						cur = p
-						widened = true
-					}
-				case *ast.AssignStmt:
-					for _, l := range px.Lhs {
-						if l == cur {
-							cur = p
-							widened = true
-						}
-					}
+			cur, widened, calls := climb(x, 0)
+			// the value is merely named (a local used once): its consumer is the consumer of the local; the
+			// definition stays a unit of its own, forgiven when the consumer's unit contains it
+			named := false
+			for _, u := range namedUses(cur) {
+				if c2, w2, _ := climb(u, calls); w2 && c2 != u {
+					emit(c2)
+					named = true
 				}
-				break climb
 			}
 			if widened {
 				emit(cur)
+				if named {
+					out[len(out)-1].named = true
+				}
 			}
 		}
 		return true
@@ -320,17 +408,36 @@ func ParityBetween(fa, fb *Func, a, b string) []ParityAsym {
 	for _, u := range ub {
 		inB[u.norm] = true
 	}
+	// a unit that only names an intermediate value is covered by the unit of its consumer
+	covered := func(u parityUnit, own []parityUnit) bool {
+		if !u.named {
+			return false
+		}
+		for _, o := range own {
+			if o.norm != u.norm && strings.Contains(o.norm, u.norm) {
+				return true
+			}
+		}
+		return false
+	}
 	var out []ParityAsym
 	for _, u := range ub {
-		if !inA[u.norm] {
+		if !inA[u.norm] && !covered(u, ub) {
 			out = append(out, ParityAsym{b, u.norm, u.src, u.pos})
 		}
 	}
 	for _, u := range ua {
-		if !inB[u.norm] {
+		if !inB[u.norm] && !covered(u, ua) {
 			out = append(out, ParityAsym{a, u.norm, u.src, u.pos})
 		}
 	}
 	sort.Slice(out, func(i, j int) bool { return out[i].Pos < out[j].Pos })
 	return out
+}
+
+// ParityUnitCount returns how many units of f mention word (of the pair a/b).
+func ParityUnitCount(f *Func, word, a, b string) int {
+	re := regexp.MustCompile(`(?i)` + word + `s?`)
+	both := regexp.MustCompile(`(?i)(` + a + `|` + b + `)s?`)
+	return len(parityUnits(f, re, both))
 }
